@@ -189,6 +189,67 @@ def check_sized_usage_widths(fx, rep):
 
 
 
+def check_empty_packed_neutral(mm, rep, rule):
+    """A packed encoding without spans says nothing about the value. Against the constructors that have no arm of their own with
+    a packed encoding (a mapping, a fixed array) the arm that is selected for the pair must not be the catch-all conflict: an arm
+    guarded by `types.is_empty()` that answers the other operand has to come first, in both orders."""
+    n = 0
+    for partner in ("Mapping", "FixedArray"):
+        for packed_left in (True, False):
+            a, b = ("Packed", partner) if packed_left else (partner, "Packed")
+            n += 1
+            verdict = "no arm"
+            ok = False
+            for arm in mm.arms:
+                if not arm.matches(a, b):
+                    continue
+                g = arm.guard
+                if g is not None:
+                    gt = T.short(T.term(g, T.Env()))
+                    if "is_empty" in gt and "types" in gt:
+                        t = arm.term
+                        want = "right" if packed_left else "left"
+                        pid = next((p_["local"] for p_ in mm.fn["hir"]["params"] if p_.get("p") == "Bind" and p_.get("name") == want), None)
+                        ok = isinstance(t, tuple) and t[0] == "call" and "Merge" in str(t[1]) and len(t) > 2 and t[2] and isinstance(t[2][0], tuple) and ((t[2][0][0] == "local" and len(t[2][0]) > 1 and t[2][0][1] == pid) or t[2][0] == (("R",) if packed_left else ("L",)) or T.short(t[2][0]) == ("<R>" if packed_left else "<L>"))
+                        verdict = f"arm at {arm.where()} answers `{T.short(t)[:50]}`"
+                        break
+                    continue  # another guard: may or may not apply, look further
+                t = arm.term
+                verdict = f"unguarded arm at {arm.where()} answers `{T.short(t)[:60]}`"
+                break
+            rep.oblige(
+                ok,
+                rule,
+                f"empty-packed-neutral:{a}x{b}",
+                mm.fn and F.loc(mm.fn["span"]) or "-",
+                f"merge({a}, {b}) with a packed encoding that has no spans: {verdict} - an encoding without spans is evidence that says nothing, and must leave the {partner.lower()} as it is rather than conflict with it",
+                sample={"rule": rule, "pair": f"{a} x {b}", "selected": verdict},
+            )
+    # against a dynamic array the pair has an arm of its own (the string-length-flag shapes): its zero-span case must answer the
+    # array as it stands, not dynamic bytes (which forgets the element type)
+    arm = next((a_ for a_ in mm.arms if a_.matches("Packed", "DynamicArray") and a_.guard is None), None)
+    if arm is not None:
+        t = arm.term
+        zero = None
+        if isinstance(t, tuple) and t[0] == "match":
+            hb = F.strip(arm.node["body"])
+            if hb.get("k") == "Match" and len(hb["arms"]) == len(t[2]):
+                for harm, (_lbl, tb) in zip(hb["arms"], t[2]):
+                    if harm["pat"].get("p") == "Lit" and str(harm["pat"]["value"].get("v")) == "0":
+                        zero = tb
+        n += 1
+        keeps = isinstance(zero, tuple) and zero[0] == "call" and "Merge" in str(zero[1]) and zero[2] and T.short(zero[2][0]) == "<R>"
+        rep.oblige(
+            keeps,
+            rule,
+            "empty-packed-neutral:PackedxDynamicArray",
+            arm.where(),
+            f"merge(Packed, DynamicArray) with a packed encoding that has no spans answers `{T.short(zero)[:50] if zero else '?'}`: evidence that says nothing replaces the array by dynamic bytes, and its element type is lost",
+            sample={"rule": rule, "pair": "Packed x DynamicArray", "zero_span_case": T.short(zero)[:50] if zero else None},
+        )
+    rep.floor(rule, n, 4, "orientations of an empty packed encoding against mapping / fixed array")
+
+
 def check_transparent_constructors(fx, rep, rule):
     """merge states its results through the expression constructors (`TE::word(width, usage)`, `mapping`, `dyn_array`, ..): the
     laws read off merge's arms hold for the VALUES only if a constructor stores exactly what it is handed. A constructor that
@@ -446,6 +507,7 @@ def check(fx, rep, tier):
     from .c16 import check_span_shapes
 
     check_span_shapes(mm, core.Retag(rep, "R15.3"))
+    check_empty_packed_neutral(mm, rep, "R15.3")
     check_any_identity(mm, rep)
     # evidence is joined across equalities only if equalities are recorded and resolved (C14 R14.2, re-evaluated)
     from .. import core as _core
